@@ -203,6 +203,8 @@ impl<K: SimK, V: SimV, const N: usize, const M: usize> World<K, V, N, M> {
                 let p = pre.map(*t);
                 on_map!(self, *t, |m, cx| fmt_iter(m, cx, *which, *take, *alt, *spec, *sink, p))
             }
+            Op::FmtIrreflexive { n, map, style, spec } => crate::ops_big::fmt_irreflexive(&mut self.cx, *n, *map, *style, *spec),
+            Op::Transfer { from, how } => self.transfer(*from, *how, pre),
             Op::BigDisjoint { fill, sel } => crate::ops_big::big_disjoint(&mut self.cx, *fill, *sel),
             Op::Serde { t, set, cfg } => crate::ops_serde::serde_op(self, *t, *set, cfg, pre),
             Op::Relocate { t, set } => {
@@ -217,6 +219,14 @@ impl<K: SimK, V: SimV, const N: usize, const M: usize> World<K, V, N, M> {
             Op::Overflow { t, via, hint } => self.overflow(*t, *via, *hint, pre, &mut out),
         }
         out
+    }
+
+    /// One container's consuming iterator / drain feeds another container's bulk construction.
+    fn transfer(&mut self, from: T, how: u8, pre: &Pre) {
+        match from {
+            T::A => crate::ops_bulk::transfer(&mut self.ma.g.val, &mut self.sa.g.val, &mut self.sb.g.val, &mut self.cx, how, &pre.ma, &pre.sa, &pre.sb),
+            T::B => crate::ops_bulk::transfer(&mut self.mb.g.val, &mut self.sb.g.val, &mut self.sa.g.val, &mut self.cx, how, &pre.mb, &pre.sb, &pre.sa),
+        }
     }
 
     fn overflow(&mut self, t: T, via: Via, hint: u8, pre: &Pre, out: &mut OpOut) {
@@ -268,6 +278,12 @@ impl<K: SimK, V: SimV, const N: usize, const M: usize> World<K, V, N, M> {
             return;
         }
         let name = op_name(op);
+        // a consuming iterator / drain never panics on its own, however it is stepped
+        if matches!(op, Op::Drain { .. } | Op::IntoIter { .. } | Op::IntoKeys { .. } | Op::IntoValues { .. } | Op::SDrain { .. } | Op::SIntoIter { .. }) {
+            if let Ended::Raised(msg) = ended {
+                violate("wrong-yield", format!("{name}: stepping or letting go of the iterator panicked ({msg})"));
+            }
+        }
         // formatting and serialising never change the container
         if let Op::Fmt { t, set, .. } = op {
             let (a, b) = if *set { (pre.set(*t), post.set(*t)) } else { (pre.map(*t), post.map(*t)) };
